@@ -32,6 +32,10 @@ TEXT = {
    text='Unbounded rely/guarantee proof on the real work_queue_push/work_queue_get_work (DFCC contracts, the worker retry loop closed by a loop contract, interference before every access incl. the split non-atomic out_count update): in_count = out_count + uncounted + retiring + queued + pending; push told START_WORKING exactly when its increment moved in_count 0 -> 1; get_work hands out exactly one popped item or reports EMPTY exactly when its atomic subtract drained in_count to 0 (then nothing announced is left unhanded); lemma layer: actions inductive, one worker at a time, EMPTY only when all announced items were handed out, never an item queued without an active worker.',
    note='mpsc_fifo_push/trypop by the C15 contracts; single consumer = the elected worker; SC; counters below 2^58.',
    technique='CBMC function+loop contracts (DFCC) on woven real code, rely/guarantee ghost counters, SAT lemmas', ref='5 C17'),
+ 'C16': dict(
+   text='Rely/guarantee refinement proof on the real lockfree_ring_buffer_trypush/trypop (woven header inlines) against the four-action system CLAIM_W/WRITE/CLAIM_R/CLEAR over one symbolic observed absolute index (any index, any of 2^62 values, index & mask wrap included): adversarial interference (any high/low/slot contents satisfying the invariant and what this operation has read) before every access; read hooks record facts (value of low/high/slot seen), the step monitor checks each CAS against them (claim only from the value read, slot seen empty with room left / slot seen full below a high value read earlier), that a write lands only on the claimed slot, never on an occupied slot, never wipes another index; failure only for a stated reason (slot busy, looked full/empty, CAS lost) and without effect; popped value = the value pushed for that index.',
+   note='Capacity symbolic in 2^1..2^4 (quick) / 2^1..2^6 (thorough) over a fixed backing store (larger capacities not covered: CBMC array post-processing); knowledge-stability of the read facts under interference is an assumed rely (lemma layer pending); SC; indices below 2^62; blocking wrappers not separately proved.',
+   technique='CBMC harness-mode contract proof on woven real code, rely/guarantee with symbolic observer index and read hooks', ref='5 C16, Appendix A.4'),
 }
 NOT_YET = 'check not built yet at this commit (DESIGN.md section 5 describes the planned contracts)'
 checks, na = [], []
